@@ -1,5 +1,5 @@
 SPEC = {
-    "lean_modules": ["AM.Props.C09", "AM.Props.C02"],
+    "lean_modules": ["AM.Props.C09", "AM.Props.C02", "AM.Props.C02M"],
     "theorems": [
         "AM.Silence.merge_refuses_past_retention", "AM.Silence.merge_monotone", "AM.Silence.merge_result",
         "AM.Silence.merge_idem_no_gossip", "AM.Silence.merge_old_no_gossip",
@@ -9,12 +9,13 @@ SPEC = {
         "AM.Silence.set_state_is_merge", "AM.Silence.expire_state_is_merge",
         "AM.Silence.index_inv_preserved", "AM.Silence.query_eq_filter",
         "AM.Silence.reload_lossless", "AM.Silence.effective_after_merge",
+        "AM.Silence.stMi_mergeOne", "AM.Silence.merge_stale_index_counterexample", "AM.Silence.set_keeps_matchers",
     ],
     "engines": [
         {"name": "silmerge", "pkg": "./silmerge", "search_cases": 20000},
     ],
     "rule": "random op sequences on 2-3 real silence.Silences (+ Silencer) under synctest virtual time: local Set (create / compatible and "
-            "incompatible edit) and Expire whose broadcasts are captured into a pool, scripted channel delivering pool entries "
+            "incompatible edit, among them every one-component variation of the matcher sets) and Expire whose broadcasts are captured into a pool, scripted channel delivering pool entries "
             "(late, duplicated, reordered, dropped, batched 1-3 with last-record-wins, crafted versions around the tie and retention "
             "boundaries, oversized), full-state push (MarshalBinary -> Merge), GC, snapshot reload, Query (QIDs/QSince/QState/QMatches) "
             "and Mutes; instants on a 1 s grid; one third of the cases are convergence cases (distinct update instants per id, retention "
@@ -22,7 +23,8 @@ SPEC = {
             "a case is non-trivial when it hits a tagged branch (merge:newer/older/tie/duplicate/past-retention/revival/oversized, "
             "set:in-place/replace/silently-dropped, expire:*, gc:removed, converge:checked, mutes:*); distinct = distinct hash of the op lines",
     "assumptions": [
-        "versions of one silence id carry the same matcher sets (every honest instance's Set draws a new id when matchers change); "
+        "versions of one silence id carry the same matcher sets (every honest instance's Set draws a new id when matchers change: "
+        "set_keeps_matchers; Merge itself neither checks nor recompiles: stMi_mergeOne / merge_stale_index_counterexample); "
         "legacy `comments`/`matchers` wire fields and patterns that do not compile are not generated",
         "protobuf codec round-trips (the harness decodes MarshalBinary output / broadcast payloads to observe state)",
         "newest_wins/converges: the newest version of an id is strictly newest (distinct UpdatedAt per id) and not past retention at any delivery instant",
